@@ -290,6 +290,58 @@ func cmdCheck(args []string) int {
 				}
 			}
 		}
+		if u.SameEmits {
+			type key struct{ cls, name string }
+			first := map[key]*interp.PathResult{}
+			reported := map[key]bool{}
+			for _, r := range pool.Results {
+				if r.Outcome != "ok" {
+					continue
+				}
+				cls := ""
+				if len(r.Covers) > 0 {
+					cls = r.Covers[0]
+				}
+				for name, text := range r.Emits {
+					k := key{cls, name}
+					f := first[k]
+					if f == nil {
+						first[k] = r
+						continue
+					}
+					if f.Emits[name] != text && !reported[k] {
+						reported[k] = true
+						// two schedules, two outputs: confirm natively by repeated runs
+						rp, err := makeReplay(m, id, u, r, -1)
+						if err != nil {
+							ue.uncovered("replay construction failed for schedule-dependent output: " + err.Error())
+							continue
+						}
+						rp.Params = params
+						_ = os.WriteFile(filepath.Join(rp.Dir, "schedule_A.txt"), []byte(fmt.Sprintf("script %v\n\n%s", f.Script, f.Emits[name])), 0o644)
+						_ = os.WriteFile(filepath.Join(rp.Dir, "schedule_B.txt"), []byte(fmt.Sprintf("script %v\n\n%s", r.Script, text)), 0o644)
+						distinct := map[string]bool{}
+						for run := 0; run < 30 && len(distinct) < 2; run++ {
+							res := runReplay(rp)
+							ev.Replays++
+							if !res.Ran {
+								break
+							}
+							b, _ := os.ReadFile(filepath.Join(rp.Dir, "emit_"+name+".txt"))
+							distinct[string(b)] = true
+						}
+						if len(distinct) >= 2 {
+							ev.ReplaysReproduced++
+							violationLines = append(violationLines, fmt.Sprintf("VIOLATION property=%s replay=%s", id, rp.Dir))
+							ue.violation(caseKey{u.Name, "C12.same-output-under-every-map-order", "", "violated"}, 1, rp.Dir, "output "+name+" depends on map iteration order (reproduced natively in repeated runs)")
+						} else {
+							ue.uncovered("the engine found two map orders with different output " + name + " (" + rp.Dir + "), not reproduced natively in 30 runs")
+						}
+					}
+				}
+			}
+			ue.Checks["C12.same-output-under-every-map-order"] = map[string]int{"paths-compared": len(pool.Results), "classes": len(first)}
+		}
 		if pool.Dropped > 0 {
 			ue.uncovered(fmt.Sprintf("path budget reached: %d queued prefixes not explored", pool.Dropped))
 		}
@@ -323,8 +375,16 @@ func cmdCheck(args []string) int {
 					ue.Spurious++
 					ue.uncovered("panic path did not reproduce natively (engine infidelity): " + r.Msg)
 				}
-			case res.CheckFailed(k.check):
+			case res.CheckFailed(k.check) || (strings.HasSuffix(k.check, "literals-fit") && res.CompileFailed):
 				ev.ReplaysReproduced++
+				if strings.HasSuffix(k.check, "literals-fit") && res.CompileFailed && k.status == "deviation" {
+					// the obligation "literal fits its context" is confirmed by the compiler itself
+					if f := findings.open(id, k.dev); f != nil {
+						knownSeen[k.dev] = f.What
+						ue.known(k, len(c.paths), rp.Dir)
+						continue
+					}
+				}
 				if k.status == "deviation" && res.DevMatched(k.check, k.dev) {
 					if f := findings.open(id, k.dev); f != nil {
 						knownSeen[k.dev] = f.What
